@@ -700,6 +700,13 @@ func (env *SpecEnv) call(e *Expr) *Value {
 		specFail("len of %s", args[0])
 	case "jhas", "jok", "jfield", "jstr", "jint", "jbool", "jdecoded", "jstrs", "jmapint":
 		return env.specJSON(name, args)
+	case "tuple":
+		// tuple(a, b, ...): a composite key (e.g. for maps keyed by a struct)
+		v := &Value{K: KTuple}
+		for _, a := range args {
+			v.Fields = append(v.Fields, env.eval(a))
+		}
+		return v
 	case "zero":
 		t := env.lookupType(exprTypeName(args[0]))
 		if t == nil {
